@@ -422,6 +422,13 @@ def check_builder(ck, prog):
                 if name not in ("stdin", "stdout", "stderr", "cwd", "uid", "gid", "pgroup"):
                     continue
                 x = strip_casts(a)
+                for _ in range(3):      # through a local copy (`let stdin = self.stdin;`)
+                    if isinstance(x, tuple) and x[0] == "var":
+                        defs = list(ctx.prov.expand(x))
+                        if len(defs) == 1:
+                            x = strip_casts(defs[0])
+                            continue
+                    break
                 direct = isinstance(x, tuple) and x[0] == "field" and x[2] == name and canon(x[1]) == "*p1"
                 ck.ob("C13.6", f"{meth}|configuration-read-in-place|{name}", direct, fn=fn["path"], site=ctx.site(bb),
                       detail=f"Command::{meth} hands `{show(a)}` to the child as `{name}`: it must be the builder's own `self.{name}` (copied), not a value taken out of or computed from it - otherwise a second spawn of the same Command runs a different configuration")
